@@ -69,6 +69,8 @@ func main() {
 		os.Exit(mcopyCmd(os.Args[2:]))
 	case "trace":
 		os.Exit(traceCmd(os.Args[2:]))
+	case "instances":
+		os.Exit(instancesCmd(os.Args[2:]))
 	case "keytree":
 		os.Exit(keytreeCmd(os.Args[2:]))
 	}
